@@ -39,6 +39,9 @@ Theorem C05_dispatch : forall reg q,
          [EInvoke (q_resource q) (q_commit q) (q_xid q) (q_bid q) (q_resource q) ctx;
           ERespond (q_msgid q) (q_commit q) (q_xid q) (q_bid q)
                    (status_of (q_commit q) (q_user_fails q)) (code_of (q_user_fails q))]) /\
+  (registered reg (q_resource q) = true -> ctx_of (q_app q) = None ->
+     phase2 reg q = [ERespond (q_msgid q) (q_commit q) (q_xid q) (q_bid q)
+                              (if q_commit q then st_commit_retry else st_rollback_retry) 0%N]) /\
   (status_of (q_commit q) (q_user_fails q) = (if q_commit q then st_committed else st_rollbacked)
      <-> q_user_fails q = false) /\
   (q_user_fails q = true ->
@@ -55,12 +58,6 @@ Theorem C05_dispatch_seq : forall reg qs,
   List.length (filter (fun q => registered reg (q_resource q) &&
                            match ctx_of (q_app q) with Some _ => true | None => false end) qs).
 Proof. exact dispatch_seq. Qed.
-
-(* the full property fails on malformed application data (the code panics: no invocation, no
-   response): known finding tcc.appdata.malformed *)
-Theorem C05_malformed_refuted : exists reg q,
-  registered reg (q_resource q) = true /\ phase2 reg q = [EPanic].
-Proof. exact malformed_refuted. Qed.
 
 (* ---- non-vacuity ---------------------------------------------------------------------- *)
 Example C05_roundtrip_nonvacuous :
@@ -88,3 +85,10 @@ Example C05_dispatch_nonvacuous :
   [EInvoke (bs "act") true (bs "x") 1 (bs "act") []; ERespond 7 true (bs "x") 1 5%N 1%N;
    EInvoke (bs "act") true (bs "x") 1 (bs "act") []; ERespond 8 true (bs "x") 1 6%N 0%N].
 Proof. vm_compute. reflexivity. Qed.
+
+(* malformed application data really occurs in the model's domain and is answered, not dispatched *)
+Example C05_malformed_nonvacuous :
+  phase2 [bs "act"] (mkQ false (bs "act") (bs "x") 1 7 (AJson (JObj [(bs "actionContext", JNumZ 5)])) false)
+  = [ERespond 7 false (bs "x") 1 9%N 0%N] /\
+  phase2 [bs "act"] (mkQ true (bs "act") (bs "x") 1 7 AGarbage false) = [ERespond 7 true (bs "x") 1 6%N 0%N].
+Proof. vm_compute. split; reflexivity. Qed.
